@@ -135,7 +135,7 @@ func (r *Run) Nontrivial(key string) {
 	r.mu.Lock()
 	if len(r.nontrivial) < 5_000_000 {
 		h := sha1.Sum([]byte(key))
-		r.nontrivial[string(h[:8])] = struct{}{}
+		r.nontrivial[hex.EncodeToString(h[:8])] = struct{}{}
 	}
 	r.mu.Unlock()
 }
@@ -271,4 +271,72 @@ func (r *Run) Finish() {
 func JSON(v any) string {
 	b, _ := json.Marshal(v)
 	return string(b)
+}
+
+// ---------------------------------------------------------------------------
+// child processes: work that can kill the process (fatal runtime errors, escaped panics, hangs) is run
+// in a re-executed copy of the driver; the child exports what it covered and the parent merges it.
+
+type exported struct {
+	Evals      int64          `json:"evals"`
+	Nontrivial []string       `json:"nontrivial"`
+	Samples    []any          `json:"samples"`
+	Traces     int64          `json:"traces"`
+	NewViol    []Violation    `json:"new_viol"`
+	NewSigs    map[string]int `json:"new_sigs"`
+	KnownHit   map[string]int `json:"known_hit"`
+	Extra      map[string]any `json:"extra"`
+	TLC        []TLCStat      `json:"tlc"`
+	Progress   string         `json:"progress"`
+}
+
+// Export writes the run's accumulated coverage to path (child side).
+func (r *Run) Export(path string) {
+	r.mu.Lock()
+	defer r.mu.Unlock()
+	e := exported{Evals: r.evals, Samples: r.samples, Traces: r.traces, NewViol: r.newViol, NewSigs: r.newSigs,
+		KnownHit: r.knownHit, Extra: r.Extra, TLC: r.tlc}
+	for k := range r.nontrivial {
+		e.Nontrivial = append(e.Nontrivial, k)
+	}
+	b, _ := json.Marshal(e)
+	if err := os.WriteFile(path, b, 0o644); err != nil {
+		Fatalf("export: %v", err)
+	}
+}
+
+// Merge adds a child's exported coverage (parent side).
+func (r *Run) Merge(path string) bool {
+	b, err := os.ReadFile(path)
+	if err != nil {
+		return false
+	}
+	var e exported
+	if json.Unmarshal(b, &e) != nil {
+		return false
+	}
+	r.mu.Lock()
+	defer r.mu.Unlock()
+	r.evals += e.Evals
+	for _, k := range e.Nontrivial {
+		r.nontrivial[k] = struct{}{}
+	}
+	for _, s := range e.Samples {
+		if len(r.samples) < 6 {
+			r.samples = append(r.samples, s)
+		}
+	}
+	r.traces += e.Traces
+	r.newViol = append(r.newViol, e.NewViol...)
+	for k, v := range e.NewSigs {
+		r.newSigs[k] += v
+	}
+	for k, v := range e.KnownHit {
+		r.knownHit[k] += v
+	}
+	for k, v := range e.Extra {
+		r.Extra[k] = v
+	}
+	r.tlc = append(r.tlc, e.TLC...)
+	return true
 }
